@@ -71,6 +71,7 @@ func (f *fixture) parse(value string) (time.Time, bool, base.FilterResult) {
 }
 
 func checkExact(f *fixture, text string, secs, ns int64) (string, string) {
+	f.parse(text) // first occurrence fills the time zone cache; the second one is checked
 	ts, counted, res := f.parse(text)
 	if res != base.PASS {
 		return "not-pass", fmt.Sprintf("%q: transform returned %v", text, res)
@@ -94,13 +95,20 @@ func checkExact(f *fixture, text string, secs, ns int64) (string, string) {
 
 // checkRejected: the string is not shaped like a date-time: error counted, fallback time kept, no panic.
 func checkRejected(f *fixture, text, why string) (string, string) {
-	ts, counted, res := f.parse(text)
-	if res != base.PASS {
-		return "not-pass", fmt.Sprintf("%q: transform returned %v", text, res)
-	}
-	if !counted || !ts.Equal(fallback) {
-		cls := "malformed-accepted:" + why
-		return cls, fmt.Sprintf("%q (%s) must be reported as an error and leave the receive time in place: counted=%v timestamp=%v", text, why, counted, ts.UTC())
+	// the same transform instance sees the string several times (a connection repeats its timestamps; the transform
+	// keeps a time zone cache): every occurrence must be rejected, not only the first
+	for round := 1; round <= 3; round++ {
+		ts, counted, res := f.parse(text)
+		if res != base.PASS {
+			return "not-pass", fmt.Sprintf("%q: transform returned %v", text, res)
+		}
+		if !counted || !ts.Equal(fallback) {
+			cls := "malformed-accepted:" + why
+			if round > 1 {
+				cls += ":on-repetition"
+			}
+			return cls, fmt.Sprintf("%q (%s), occurrence %d through one transform instance, must be reported as an error and leave the receive time in place: counted=%v timestamp=%v", text, why, round, counted, ts.UTC())
+		}
 	}
 	return "", ""
 }
@@ -112,6 +120,15 @@ func checkTotal(f *fixture, text string) (string, string) {
 		return "not-pass", fmt.Sprintf("%q: transform returned %v", text, res)
 	}
 	return "", ""
+}
+
+// cutInsideOffset reports whether s[:n] ends inside the numeric offset of the valid timestamp s (sign seen, offset incomplete).
+func cutInsideOffset(s string, n int) bool {
+	i := strings.LastIndexAny(s, "+-")
+	if i < 19 || strings.HasSuffix(s, "Z") {
+		return false
+	}
+	return n > i && n < len(s)
 }
 
 func enumerate(ctx *seq.Ctx) {
@@ -276,6 +293,14 @@ func enumerate(ctx *seq.Ctx) {
 			}
 		}
 	}
+	// ---- malformed offsets behind a complete date-time: truncated / wrong separators in the zone
+	ctx.Group("offsets/malformed")
+	for _, tz := range []string{"+", "-", "+0", "+03", "+03:", "+03:0", "+030", "+03-00", "+03.00", " 03:00", "+3:00", "+03:0x", "z", "UTC", "+03:00:00", "+03:000"} {
+		for _, frac := range []string{"", ".5", ".123456"} {
+			text := "2020-02-29T23:59:59" + frac + tz
+			ctx.Case("badoffset/"+text, true, text, func() (string, string) { return checkRejected(f, text, "malformed-offset") })
+		}
+	}
 	// ---- NIL value, every prefix of valid timestamps, wrong separators, one-edit neighbours
 	ctx.Group("shape")
 	ctx.Case("nil", true, "-", func() (string, string) { return checkRejected(f, "-", "nil-value") })
@@ -289,6 +314,9 @@ func enumerate(ctx *seq.Ctx) {
 					why = "empty"
 				}
 				ctx.Case("prefix/"+text, n > 0, text, func() (string, string) { return checkRejected(f, text, why) })
+			} else if cutInsideOffset(s, n) {
+				// the date-time part is complete but the numeric offset is cut: a truncated timestamp
+				ctx.Case("prefix/"+text, true, text, func() (string, string) { return checkRejected(f, text, "truncated-offset") })
 			} else {
 				ctx.Case("prefix/"+text, true, text, func() (string, string) { return checkTotal(f, text) })
 			}
